@@ -73,7 +73,7 @@ def model_str(m, limit=1200) -> str:
         items = sorted((str(d.name()), str(m[d])) for d in m.decls())
     except Exception:
         return str(m)[:limit]
-    s = ", ".join(f"{k}={v}" for k, v in items)
+    s = ", ".join(f"{k}={v}" for k, v in items).replace("\n", " ")
     return s[:limit]
 
 
